@@ -101,8 +101,7 @@ def state_key(files):
 
 
 def materialise(files):
-    base = "/dev/shm" if os.path.isdir("/dev/shm") else None
-    root = tempfile.mkdtemp(prefix="c20-", dir=base)
+    root = tempfile.mkdtemp(prefix="c20-", dir=H.TMP)
     for p, b in files.items():
         full = os.path.join(root, p)
         os.makedirs(os.path.dirname(full), exist_ok=True)
